@@ -145,10 +145,15 @@ impl BlobTree {
         std::fs::create_dir_all(&blobs_folder)?;
         fsync_directory(&blobs_folder)?;
 
-        let blob_file_id_to_continue_with = index
-            .current_version()
+        // NOTE: Fragmentation stats of blob files that were already dropped may linger in the
+        // version, so their IDs must not be handed out again, otherwise a new blob file
+        // would inherit the stale stats (and could be considered dead right away)
+        let version = index.current_version();
+
+        let blob_file_id_to_continue_with = version
             .blob_files
             .list_ids()
+            .chain(version.gc_stats().keys())
             .max()
             .map(|x| x + 1)
             .unwrap_or_default();
